@@ -98,6 +98,70 @@ theorem wouldblock_never_drops :
       Gen.eAGAIN ∈ Gen.uxdSendZero ∧ Gen.eWOULDBLOCK ∈ Gen.uxdSendZero ∧ Gen.eNOBUFS ∈ Gen.uxdSendZero := by
   decide
 
+/-! ### end to end from the socket: `PeerMemoer` = `udping.Peer` / `uxding.Peer` under the Memoer
+
+The script is now what the SOCKET does on each `sendto` (returns a count, or raises `OSError(errno)`); `Peer.send` — modelled by `peerSend`
+from the regenerated errno tables — turns a would-block errno into "0 bytes sent" and re-raises everything else to the Memoer. -/
+
+/-- socket level: every non-escaping history is a legal transmission (same SPEC as `tx_fifo_exact`) -/
+theorem tx_fifo_exact_socket (k : PeerKind) (cs : List Call) (st : Tx) (sock : List SockRes) (h : (runCallsPeer k cs st sock).escaped = none) :
+    replay (heldG st ++ enqOf cs) (runCallsPeer k cs st sock).evs = some (heldG (runCallsPeer k cs st sock).st) :=
+  runCalls_replay cs st _ h
+
+/-- socket level: when the socket only ever returns counts, would-block errnos (EAGAIN / EWOULDBLOCK / ENOBUFS / ENOMEM: the regenerated
+`Peer.send` table) or unreachable errnos (the regenerated Memoer table), nothing escapes transmit servicing -/
+theorem tx_no_escape_socket (k : PeerKind) (cs : List Call) (st : Tx) (sock : List SockRes)
+    (hok : ∀ e, SockRes.errno e ∈ sock → e ∈ zeroErrnos k ∨ e ∈ Gen.txDropErrnos) : (runCallsPeer k cs st sock).escaped = none := by
+  apply tx_no_escape
+  intro x hx
+  obtain ⟨r, hr, hrx⟩ := List.mem_map.mp hx
+  cases r with
+  | sent n => simp [peerSend] at hrx
+  | errno e =>
+    simp only [peerSend] at hrx
+    split at hrx
+    · simp at hrx
+    · rename_i hz
+      cases hrx
+      rcases hok x hr with h | h
+      · exact absurd (by simpa using h) hz
+      · exact h
+
+/-- socket level: a would-block errno never costs a gram — `Peer.send` answers 0, the Memoer keeps the whole gram for retry; a gram is given up
+only on an errno that is in the unreachable table and NOT a would-block errno -/
+theorem tx_wouldblock_keeps_gram (k : PeerKind) (e : Nat) (he : e ∈ zeroErrnos k) :
+    peerSend k (.errno e) = .block ∧ e ∉ Gen.txDropErrnos := by
+  constructor
+  · simp [peerSend, he]
+  · have h := wouldblock_never_drops.1 e
+    apply h
+    cases k with
+    | udp => exact List.mem_append_left _ he
+    | uxd => exact List.mem_append_right _ he
+
+/-- socket level liveness: under counts, would-blocks and unreachables only, after `|script| + 1` greedy service calls nothing is pending and
+every gram was transmitted completely, in order, or given up on unreachable -/
+theorem tx_liveness_socket (k : PeerKind) (st : Tx) (sock : List SockRes)
+    (hok : ∀ e, SockRes.errno e ∈ sock → e ∈ zeroErrnos k ∨ e ∈ Gen.txDropErrnos) :
+    let r := runCallsPeer k (List.replicate (sock.length + 1) Call.greedy) st sock
+    r.escaped = none ∧ r.st.pending = false ∧ replay (heldG st) r.evs = some [] := by
+  have hsok : ScriptOk (sock.map (peerSend k)) := by
+    intro x hx
+    obtain ⟨r, hr, hrx⟩ := List.mem_map.mp hx
+    cases r with
+    | sent n => simp [peerSend] at hrx
+    | errno e =>
+      simp only [peerSend] at hrx
+      split at hrx
+      · simp at hrx
+      · rename_i hz
+        cases hrx
+        rcases hok x hr with h | h
+        · exact absurd (by simpa using h) hz
+        · exact h
+  have := tx_liveness st (sock.map (peerSend k)) hsok
+  simpa [runCallsPeer] using this
+
 /-! ### non-vacuity and concrete tests (bounded checks, not the unbounded claims) -/
 
 example : ScriptOk [.accept 3, .block, .err 111, .accept 0] := by
@@ -111,5 +175,8 @@ example : (runCalls [.greedy, .greedy, .greedy] ⟨[([65, 65, 65], 1), ([66, 66]
 /-- test: F35 — the remainder is retried although the queue is empty -/
 example : (runCalls [.once, .once] ⟨[([65, 65, 65], 1)], [], none⟩ [.accept 2]).st = ⟨[], [], none⟩ := by decide
 example : (⟨[], [65], some 1⟩ : Tx).pending = true := by decide
+/-- test: ENOBUFS (105) from the UDP socket is a would-block, the gram is retried and completes; ECONNREFUSED (111) drops the next one -/
+example : (runCallsPeer .udp [.greedy, .greedy] ⟨[([65, 65], 1), ([66], 1)], [], none⟩ [.errno 105, .sent 2, .errno 111]).st = ⟨[], [], none⟩ ∧
+    (runCallsPeer .udp [.greedy, .greedy] ⟨[([65, 65], 1), ([66], 1)], [], none⟩ [.errno 105, .sent 2, .errno 111]).escaped = none := by decide
 
 end Hio.Memo
